@@ -27,7 +27,7 @@ ASSUMPTIONS = [
     'values are unique strings, so a shifted read is visible',
 ]
 BUDGET = {'quick': 16 * 400, 'thorough': 16 * 8000}
-FLOORS = {'len_change_in_varargs': 0.10, 'edit_without_varargs': 0.10, 'rejected_edit': 0.20}
+FLOORS = {'len_change_in_varargs': 0.055, 'edit_without_varargs': 0.1, 'rejected_edit': 0.2}
 
 _NAMES_EXTRA = ['args', 'kw', 'z0', 'z1', 'nope', 'self']
 
